@@ -174,6 +174,8 @@ def grid(tier, backend):
         return
     th = (0, 8, 256, 10**6)
     al = [(None, None)] + [(a, t) for a in (1, 4096) for t in (0, 100, 10**6)]
+    # alignments that are neither a power of two nor (10000) a multiple of the page size, and one below the page size
+    al += [(a, t) for a in (64, 10000, 12288) for t in (0, 100, 10**6)] if tier == "thorough" else [(64, 0), (10000, 0), (12288, 100)]
     sh = (None, 1, 10, 400, 6000, 10**6)  # 6000 holds two aligned mid-size tensors per shard
     if tier == "thorough":
         wk = (None, 1, 2, 4)
